@@ -16,8 +16,8 @@ def fullAt : Nat := 262144
 def halfFull : Nat := 131072
 def batchSize : Nat := 32
 def flushInterval_1 : Nat := 10000000
-def readBuf_1 : Nat := 65536
-def refill : Nat := 32768
+def readBuf_1 : Nat := 524288
+def refill : Nat := 262144
 def hdrLen : Nat := 2
 def maxPacketLen : Nat := 65535
 def batchFlushAt : Nat := 32
